@@ -48,6 +48,11 @@ pub fn check(_ctx: &Ctx, st: &mut Stats, c: &Case) {
         if i % 1024 == 0 {
             st.tick();
         }
+        if i % 150_001 == 75_000 {
+            // fault injection: far-future / negative-year / calendar-edge conversions between in-domain ones
+            super::out_of_domain_calls(1);
+            st.count("fault_injection.out_of_domain_call_groups");
+        }
         let (wy, wbh, wm, wd) = o::tabular(date);
         let want_wd = date.weekday().num_days_from_sunday() as usize; // 0 = Sunday = Ahad
         let r = guarded(|| {
